@@ -29,6 +29,19 @@ fn sink_bytes(recs: &[crate::exec::Rec]) -> Option<&Vec<u8>> {
 // ------------------------------------------------------------------------------------- C01
 
 pub fn gen_c01(rng: &mut Rng, tier: Tier) -> Case {
+    if rng.chance(1, 300) {
+        // thousands of tiny entries inside ONE block and an index interval larger than that (or on and
+        // next to powers of two): backward moves then re-scan very long runs between two offsets
+        let n = *rng.pick(&[4096u64, 8191, 8192, 8193, 8194, 9000, 12000, 16384, 16385]) + rng.range(0, 3);
+        let interval = *rng.pick(&[4096usize, 8192, 8193, 16384, 65536, 1 << 20, usize::MAX]);
+        let knobs = Knobs { codec: *rng.pick(&[0u8, 0, 5, 3]), level: 1, block_size: Some(*rng.pick(&[1usize << 20, 1 << 19, 3 << 20])), interval: Some(interval), levels: *rng.pick(&[0u8, 1, 2]), ctor: 0, fin: 0 };
+        let spec = FileSpec { knobs, entries: Entries::Counter { n, width: *rng.pick(&[2u8, 3, 4]), start: 1, stride: 1, vlen: *rng.pick(&[0u32, 0, 1, 2]) } };
+        let mut env = gen::gen_env(rng, true);
+        if !env.is_whole() {
+            env = EnvPlan { modes: vec![crate::env::IoMode::Chop { max: 8192 }, crate::env::IoMode::Whole], ..env };
+        }
+        return Case::File(FileCase { spec, env, v1: false, big: None });
+    }
     let spec = if rng.chance(1, 5) { gen::gen_layered_spec(rng, tier) } else { gen::gen_file_spec(rng, tier, true) };
     Case::File(FileCase { spec, env: gen::gen_env(rng, true), v1: false, big: None })
 }
